@@ -565,6 +565,11 @@ class Ev:
             if inner is not None and start is not None:
                 return [P.atom(("tuple", (P.const(k + start), v))) for k, v in enumerate(inner)]
             return None
+        if isinstance(node, ast.Name) and node.id in self.env and node.id not in self.opaque:
+            # a local bound to a short string constant: its characters (symbols = "xyz"; for j, s in enumerate(symbols))
+            va = self.env[node.id].as_atom()
+            if va and va[0] == "str" and isinstance(va[1], str) and 1 <= len(va[1]) <= 6:
+                return [P.atom(("str", c)) for c in va[1]]
         if isinstance(node, ast.Constant) and isinstance(node.value, str) and 1 <= len(node.value) <= 6:
             # for c in "xyz": the characters, in order
             return [self.ev(ast.Constant(c)) for c in node.value]
